@@ -294,6 +294,17 @@ func Font(k int) *sfnt.Font {
 			f.Gsub.FeatureList[1].Lookups = []gtab.LookupIndex{0}
 		}
 	}
+	if f.Gpos != nil {
+		// pair adjustments of which only some move the second glyph (as a table built with the lookup
+		// language has them; tables read from a file are uniform)
+		for _, l := range f.Gpos.LookupList {
+			for _, st := range l.Subtables {
+				if pairs, ok := st.(gtab.Gpos2_1); ok {
+					pairs[glyph.Pair{Left: 3, Right: 4}] = &gtab.PairAdjust{First: &gtab.GposValueRecord{XAdvance: -15}, Second: &gtab.GposValueRecord{YPlacement: 20}}
+				}
+			}
+		}
+	}
 	if k == 1 {
 		// no cap height / x-height given although 'H' and 'x' are mapped (the writer derives the OS/2 values
 		// from the glyphs; that must not be stored in the shared font)
